@@ -8,20 +8,28 @@ Import ListNotations.
 Section PipeFailSpec.
 Variable SLOTS : nat.
 Variable PERMITS : nat.
+Variable ATOMIC : bool.        (* MemTable::add all-or-nothing (the code) / entry by entry (the old add) *)
 
-Definition reach (t : list label) (s : pst) : Prop := prun SLOTS (p0 PERMITS) t = Some s.
+Definition reach (t : list label) (s : pst) : Prop := prun SLOTS ATOMIC (p0 PERMITS) t = Some s.
 
 (* ---- failed_invisible_live ---- *)
 (* plain statement: a fresh reader never sees anything of a committer whose commit() returned Err *)
 Definition failed_invisible_live_stmt : Prop :=
   forall t s i, reach t s -> failed s i = true -> visible_of s i = [].
 
-(* what holds: unless apply failed after inserting part of the batch, a failed commit has NO entry in
+(* with an all-or-nothing add (ATOMIC = true, the code) the plain statement holds: see failed_invisible_live_full_stmt
+   below.  For any add: unless apply failed after inserting part of the batch, a failed commit has NO entry in
    the memtable at all — nothing to see for any reader at any later horizon (conflict, WAL failure,
    BatchTooLarge, apply failing before the first insert) *)
 Definition failed_invisible_live_outside_known_stmt : Prop :=
   forall t s i, reach t s -> failed s i = true -> known_partial_apply t = false ->
     entries_of s i = [] /\ visible_of s i = [].
+
+(* the plain statement in full, for the all-or-nothing add: stated as a Prop of its own so that Props/C15.v can
+   instantiate ATOMIC := true; it also gives that the failed committer has no memtable entry at all *)
+Definition failed_invisible_live_full_stmt : Prop :=
+  ATOMIC = true ->
+  forall t s i, reach t s -> failed s i = true -> entries_of s i = [] /\ visible_of s i = [].
 
 (* ---- pipeline_not_poisoned ---- *)
 (* the invariant in_flight <= permits < slots, for EVERY interleaving: the queue never overflows and every
@@ -41,9 +49,9 @@ Definition commit_paths (i cnt k : nat) : list (list label) :=
 (* sequential use: whatever the outcome of a commit, the queue slot and the permit are released *)
 Definition pipeline_not_poisoned_sequential_stmt : Prop :=
   0 < PERMITS -> 0 < SLOTS ->
-  forall s i cnt k tr, idle PERMITS s = true -> ph_get i (p_ph s) = PIdle -> 0 < cnt -> k < cnt ->
+  forall s i cnt k tr, idle PERMITS s = true -> ph_get i (p_ph s) = PIdle -> 0 < cnt -> k < cnt -> (ATOMIC = true -> k = 0) ->
     In tr (commit_paths i cnt k) ->
-    exists s', prun SLOTS s tr = Some s' /\ idle PERMITS s' = true /\
+    exists s', prun SLOTS ATOMIC s tr = Some s' /\ idle PERMITS s' = true /\
                (forall j, j <> i -> ph_get j (p_ph s') = ph_get j (p_ph s)).
 
 End PipeFailSpec.
